@@ -748,7 +748,14 @@ impl<'tcx> Extract<'tcx> {
         }
         if !rendered {
             if let TyKind::Ref(_, inner, _) = ty.kind() {
-                if let mir::Const::Val(val, _) = c.const_ {
+                let val_opt: Option<mir::ConstValue> = match c.const_ {
+                    mir::Const::Val(v, _) => Some(v),
+                    mir::Const::Ty(..) if !c.const_.has_non_region_param_compat() => {
+                        c.const_.eval(tcx, TypingEnv::fully_monomorphized(), rustc_span::DUMMY_SP).ok()
+                    }
+                    _ => None,
+                };
+                if let Some(val) = val_opt {
                     let is_slice_val = matches!(val, mir::ConstValue::Slice { .. } | mir::ConstValue::Indirect { .. });
                     if inner.is_str() && is_slice_val {
                         if let Some(bytes) = val.try_get_slice_bytes_for_diagnostics(tcx) {
@@ -791,6 +798,17 @@ impl<'tcx> Extract<'tcx> {
                                 if let StatementKind::Assign(bx) = &st.kind {
                                     if let Rvalue::Use(Operand::Constant(c2), _) = &bx.1 {
                                         let t2 = c2.const_.ty();
+                                        if let TyKind::Ref(_, inner2, _) = t2.kind() {
+                                            if inner2.is_str() {
+                                                if let mir::Const::Val(val2, _) = c2.const_ {
+                                                    if matches!(val2, mir::ConstValue::Slice { .. } | mir::ConstValue::Indirect { .. }) {
+                                                        if let Some(bytes) = val2.try_get_slice_bytes_for_diagnostics(tcx) {
+                                                            o.push(("str", s(String::from_utf8_lossy(bytes).to_string())));
+                                                        }
+                                                    }
+                                                }
+                                            }
+                                        }
                                         if t2.is_char() || t2.is_integral() {
                                             if let Some(sc) = c2.const_.try_eval_scalar_int(tcx, TypingEnv::fully_monomorphized()) {
                                                 let bits = sc.to_bits(sc.size());
